@@ -206,6 +206,12 @@ def replay(rp):
             a = vlib.run_yq(["-p=json", "-o=shell", "."], stdin=json.dumps(rp["doc"]).encode())
             b = vlib.run_yq(["-p=json", "-o=" + rp["format"], "."], stdin=json.dumps(rp["doc"]).encode())
             return a[0] != 0 or (b[0] == 0 and a[1] == b[1])
+        if rp.get("kind") == "shellvars_sub":
+            r = vlib.yqh_batch([{"op": "eval", "expr": rp["expr"], "input": json.dumps(rp["doc"]), "in": "json", "out": "shell"}])[0]
+            if "out_b64" not in r or r.get("err"):
+                return True
+            ok, _ = source_oracle_pairs([tuple(x) for x in rp["want"]], vlib.b64d(r["out_b64"]), cwd)
+            return ok
         if rp.get("kind") == "shlist":
             r = vlib.yqh_batch([{"op": "eval", "expr": "[.[] | @sh]", "input": json.dumps(rp["list"]), "in": "json", "out": "json", "indent": 0}])[0]
             if "out_b64" not in r or r.get("err"):
@@ -408,6 +414,40 @@ def run(chk):
             if not okk:
                 chk.violation({"kind": "shellvars_yaml", "yaml": y, "impl_out": out.decode("utf-8", "replace"), "why": why, "want": want}, True,
                               "sourcing the -o=shell output of a YAML document does not define the expected variables: " + why)
+        # ---- -o=shell of NON-ROOT results: a scalar picked out of the document is `value=...` (never its own key as the
+        #      name), a container result is named from its own keys downwards; several results are written one after another
+        sub = []
+        for d in docs:
+            if isinstance(d, dict) and d:
+                ks = list(d.keys())
+                k0 = chk.rng.choice(ks)
+                sub.append((d, ".[%s]" % json.dumps(k0), [d[k0]]))
+                if chk.rng.random() < 0.5:
+                    sub.append((d, ".[]", list(d.values())))
+            elif isinstance(d, list) and d:
+                sub.append((d, ".[%d]" % chk.rng.randrange(len(d)), [d[chk.rng.randrange(len(d))]]))
+        sub = [x for x in sub if not x[1].startswith(".[") or True][: (1500 if thorough else 250)]
+        sub = [(d, e_, None) for d, e_, _ in sub]
+        sresp = vlib.yqh_parallel([{"op": "eval", "expr": e_, "input": json.dumps(d), "in": "json", "out": "shell"} for d, e_, _ in sub])
+        vresp = vlib.yqh_parallel([{"op": "eval", "expr": "[%s]" % e_, "input": json.dumps(d), "in": "json", "out": "json", "indent": 0} for d, e_, _ in sub])
+        for (d, e_, _), r, rv in zip(sub, sresp, vresp):
+            if r is None or "out_b64" not in r or r.get("err") or r.get("panic") or rv is None or "out_b64" not in rv or rv.get("err"):
+                continue
+            try:
+                results = json.loads(vlib.b64d(rv["out_b64"]))
+            except Exception:
+                continue
+            pairs = []
+            for res_ in results:
+                pairs += py_assigns(res_)
+            if any(not isinstance(v_, str) for _, v_ in pairs):
+                continue
+            out = vlib.b64d(r["out_b64"])
+            chk.count(("svsub", e_, json.dumps(d)), nontrivial=True)
+            okk, why = source_oracle_pairs(pairs, out, cwd)
+            if not okk and len(chk.violations) < 8:
+                chk.violation({"kind": "shellvars_sub", "doc": d, "expr": e_, "impl_out": out.decode("utf-8", "replace"), "why": why, "want": pairs}, True,
+                              "sourcing the -o=shell output of the results of %s does not define the expected variables: %s" % (e_, why))
         # ---- every spelling of the output format that means "shell variables" (-o=shell, -o=s, -o=sh) gives the same,
         #      sourceable, output; none of them may fall through to the bare-word @sh encoder
         adocs = [{"a": "$(touch PWNED)", "b": {"c": "x y"}}, {"k": "`touch PWNED`"}, "touch PWNED", {"p": "1;touch PWNED"}, ["a b", "c"]]
